@@ -3,7 +3,7 @@
    scripted terminal (any number of connections, any chunks, delays, silences, closes, refusals); the
    log is the one the correspondence run compares event by event, to the millisecond, with the real
    client's (writes per connection, opens, drops). *)
-From Zvt Require Import Base Length Cp437 Encoding Codec Lookup Sequence SeqLookup Client ClientProps ClientLog ClientWire.
+From Zvt Require Import Base Length Cp437 Encoding Codec Lookup Sequence SeqLookup Client ClientProps ClientLog ClientTime ClientWire.
 Open Scope N_scope.
 
 (* after an Err item the very next poll drops the connection before doing anything else ... *)
@@ -80,7 +80,14 @@ Theorem C09_unexpected_reply_abandons_connection : forall cfg w w',
   get_pending cfg w = (RErr EUnexpectedPacket, w') -> w_cur w' = None.
 Proof. exact unexpected_reply_abandons_connection. Qed.
 
+(* a different serial number reported OUTSIDE the handshake (since the fix of F18): configure() asks the identity question again;
+   whenever that fails with "wrong device" no connection is kept, in every world — nothing more is sent to that terminal *)
+Theorem C09_wrong_serial_in_configure_abandons_connection : forall cfg w w',
+  get_system_info cfg w = (RErr EWrongDevice, w') -> w_cur w' = None.
+Proof. exact wrong_serial_in_configure_abandons_connection. Qed.
+
 Print Assumptions C09_after_err_drops_connection.
+Print Assumptions C09_wrong_serial_in_configure_abandons_connection.
 Print Assumptions C09_unexpected_reply_abandons_connection.
 Print Assumptions C09_registration_carries_the_configuration.
 Print Assumptions C09_drop_clears_current.
